@@ -124,6 +124,14 @@ Theorem merged_word_rmw_refuted : forall l, exists r,
 Proof. exact merged_rmw_unsafe. Qed.
 Print Assumptions merged_word_rmw_refuted.
 
+(* a stop() that waits for the body only for a bounded time is unsafe: reachable state with stop() returned while the body
+   invocation that was in flight is still executing (schedule ModelRMW.bounded_wait_schedule).  stop_safe needs the
+   UNBOUNDED wait `while (insideLoopBody) ...`; facts_stop pins that loop shape in the source. *)
+Theorem stop_bounded_wait_refuted : forall l, exists s,
+  breachable l s /\ stop_ret s = true /\ active s = true /\ inside s = true.
+Proof. exact bounded_wait_unsafe. Qed.
+Print Assumptions stop_bounded_wait_refuted.
+
 Theorem old_checker_verdict : check (THREAD, Original) stop_safe_b = false.
 Proof. exact original_checker_says_unsafe. Qed.
 Print Assumptions old_checker_verdict.
